@@ -634,7 +634,12 @@ def explore(ctx):
     report.branches["histories"] = n_hist
     report.coverage["depth"] = depths
     report.coverage["closed_form_histories"] = sum(len(EVENTS) ** d for r in depths for d in range(0, depths[r] + 1))
-    if report.coverage["closed_form_histories"] != n_hist:
+    died = sum(1 for f in total["fails"] if f["clause"] == "process-died")
+    if died:
+        # a node whose process died reports nothing about its subtree: the death is a violation of its own, the
+        # count can only be checked on runs without one
+        report.coverage["subtrees_lost_to_dead_processes"] = died
+    if report.coverage["closed_form_histories"] != n_hist and not died:
         raise HarnessError("explored %d histories, closed form says %d" % (n_hist, report.coverage["closed_form_histories"]))
     report.samples = [{"history": ["loadL", "c", "loadL", "loadF"], "meaning": "load, edit included C file, load again in the same and in a fresh process"}]
     seen = set()
